@@ -20,7 +20,9 @@ import vf
 
 REGRESS = [  # cfg -> clause that must fail with that filter off
     ("MC_regress_noid.cfg", "ReplyMatches"),
+    ("MC_regress_nostreamid.cfg", "ReplyMatches"),
     ("MC_regress_noquestion.cfg", "NoForeignCached"),
+    ("MC_regress_noquestion_sound.cfg", "VictimTruth"),
     ("MC_regress_noglueb.cfg", "GlueSound"),
     ("MC_regress_nogluer.cfg", "GlueSound"),
     ("MC_regress_nocoherent.cfg", "ReferralSound"),
@@ -110,7 +112,8 @@ def vacuity(tot, name, need):
         raise vf.MachineryError("bailiwick replay %s: Z's server played fewer moves than scripts (%s)" % (name, c))
 
 
-NEED_SINGLE = ["victim_truth", "alias_target_asked_at_owner_attack_cname_bare", "wrongq_rejected_and_retried"]
+NEED_SINGLE = ["victim_truth", "alias_target_asked_at_owner_attack_cname_bare", "wrongq_rejected_and_retried",
+               "tcp_wrong_id_rejected"]
 
 
 def run(ctx, replay):
@@ -139,8 +142,8 @@ def run(ctx, replay):
         return
 
     models(ctx, thorough)
-    single = emit(ctx, "Emit_1.cfg", 68)
-    double = emit(ctx, "Emit_2.cfg", 68 * 68, workers=8)
+    single = emit(ctx, "Emit_1.cfg", 85)
+    double = emit(ctx, "Emit_2.cfg", 85 * 85, workers=8)
     # the same scripts under the all-filters-on model: a tree that has gained the owner filter conforms
     # to these predictions instead, which is not drift
     for scripts, cfg in ((single, "EmitSound_1.cfg"), (double, "EmitSound_2.cfg")):
